@@ -15,7 +15,7 @@
 -/
 import Yabgp.Lemmas.Heal
 import Yabgp.Lemmas.OneFrame
-import Yabgp.Props.C13
+import Yabgp.Lemmas.Stopped
 
 namespace Yabgp
 open Sess
@@ -144,9 +144,9 @@ theorem C02_retry_expiry_reconnects (s : Sess) (hst : s.st = .connect) :
   generalize ht : ((s.setRetry none).closeConn).setRetry (some s.retryDeadline) = t
   have h1 : t.st = .connect := by rw [← ht]; simp [hst]
   have h2 : t.tm.retry = some (s.now + 3 * s.cfg.retryT) := by rw [← ht]; simp [setRetry, withTm, retryDeadline]
-  have hne : t.st ≠ .established := by rw [h1]; simp
+  have hne : t.abortPending.st ≠ .established := by simp [h1]
   simp only [fireRetry, hst, ht, connectTcp, if_pos hne]
-  exact ⟨h1, h2, t.conns.length, by simp [Sess.emit]⟩
+  refine ⟨by simp [Sess.emit, withConns, h1], by simp [Sess.emit, withConns, h2], t.abortPending.conns.length, by simp [Sess.emit, withConns]⟩
 
 /-- the owed connectionLost of a connection we closed, arriving in Idle, arms the idle-hold timer -/
 theorem C02_owed_close_arms_idle_hold (s : Sess) (i : Nat) (hst : s.st = .idle) (ha : s.allowAuto = true)
@@ -184,13 +184,30 @@ theorem norm_dispatch_insess {s : Sess} {i : Nat} (h : Norm s i) (j ty : Nat) (b
     exact this.trans h.proto
   · exact (up_of_norm h).of_conns hc
 
-/-- the state right after the idle-hold timer fired in Idle with automatic start allowed -/
+/-- the state right after the idle-hold timer fired in Idle with automatic start allowed: Connect, one new connection
+    attempt (an attempt still in flight, if any, having been given up), everything else as before -/
 theorem fireIdleHold_idle (s : Sess) (hst : s.st = .idle) (ha : s.allowAuto = true) :
-    s.fireIdleHold =
-      (((((s.setIdleHold none).incRetryCounter).setRetry (some (s.now + 3 * s.cfg.retryT))).withSt .connect).withConns
-        (s.conns ++ [({} : Conn)])).emit (.connect s.conns.length) := by
-  simp [fireIdleHold, autoStart, hst, ha, connectTcp, Sess.setSt, retryDeadline, setIdleHold, withTm, incRetryCounter,
-    withRetryCounter, setRetry, withSt, withConns, Sess.emit]
+    s.fireIdleHold.st = .connect ∧ s.fireIdleHold.conns.length = s.conns.length + 1 ∧
+    s.fireIdleHold.conn s.conns.length = {} ∧ s.fireIdleHold.cfg = s.cfg ∧ s.fireIdleHold.bgpId = s.bgpId ∧
+    s.fireIdleHold.localCaps = s.localCaps ∧ s.fireIdleHold.remote = s.remote ∧ s.fireIdleHold.now = s.now := by
+  have hal : (s.setIdleHold none).allowAuto = true := ha
+  have hst' : (s.setIdleHold none).st = .idle := hst
+  simp only [fireIdleHold, hst, ↓reduceIte, autoStart, hst', hal, Bool.false_eq_true]
+  generalize ht : (((s.setIdleHold none).incRetryCounter.setRetry (some (s.setIdleHold none).retryDeadline)).setSt .connect) = t
+  have t1 : t.st = .connect := by rw [← ht]; simp
+  have t2 : t.conns = s.conns := by rw [← ht]; simp [Sess.setSt, setRetry, withTm, incRetryCounter, withRetryCounter, setIdleHold, withSt]
+  have t3 : t.cfg = s.cfg := by rw [← ht]; simp [Sess.setSt, setRetry, withTm, incRetryCounter, withRetryCounter, setIdleHold, withSt]
+  have t4 : t.bgpId = s.bgpId := by rw [← ht]; simp [Sess.setSt, setRetry, withTm, incRetryCounter, withRetryCounter, setIdleHold, withSt]
+  have t5 : t.localCaps = s.localCaps := by rw [← ht]; simp [Sess.setSt, setRetry, withTm, incRetryCounter, withRetryCounter, setIdleHold, withSt]
+  have t6 : t.remote = s.remote := by rw [← ht]; simp [Sess.setSt, setRetry, withTm, incRetryCounter, withRetryCounter, setIdleHold, withSt]
+  have t7 : t.now = s.now := by rw [← ht]; simp [Sess.setSt, setRetry, withTm, incRetryCounter, withRetryCounter, setIdleHold, withSt]
+  have hl : t.abortPending.conns.length = s.conns.length := by rw [len_abortPending, t2]
+  unfold connectTcp
+  rw [if_pos (by simp [t1])]
+  refine ⟨by simp [Sess.emit, withConns, t1], by simp [Sess.emit, withConns, hl], ?_, by simp [Sess.emit, withConns, t3],
+    by simp [Sess.emit, withConns, t4], by simp [Sess.emit, withConns, t5], by simp [Sess.emit, withConns, t6],
+    by simp [Sess.emit, withConns, t7]⟩
+  simp [Sess.conn, Sess.emit, withConns, withPending, List.getD_eq_getElem?_getD, ← hl]
 
 /-- the cooperative continuation: the timer fires, the peer accepts the connection, sends its OPEN, sends a KEEPALIVE -/
 def healEvents (k : Nat) (body : Bytes) : List Ev :=
@@ -318,15 +335,15 @@ theorem heal_to_openSent (s : Sess) (rb : Nat → Bytes) (w : Bytes)
   have e1 : step U ⟨s, rb⟩ (.fire .idleHold) = ⟨(s.withOuts []).fireIdleHold, rb⟩ := rfl
   have hs1 := fireIdleHold_idle (s.withOuts []) hst ha
   generalize (s.withOuts []).fireIdleHold = s1 at hs1 e1
-  have k1 : s1.conns = s.conns ++ [({} : Conn)] := by rw [hs1]; rfl
-  have c1 : s1.cfg = s.cfg := by rw [hs1]; rfl
-  have b1 : s1.bgpId = s.bgpId := by rw [hs1]; rfl
-  have l1 : s1.localCaps = s.localCaps := by rw [hs1]; rfl
-  have r1 : s1.remote = s.remote := by rw [hs1]; rfl
-  have n1 : s1.now = s.now := by rw [hs1]; rfl
-  have hlt1 : s.conns.length < s1.conns.length := by rw [k1]; simp
-  have hconn1 : s1.conn s.conns.length = {} := by
-    unfold Sess.conn; rw [k1]; simp [List.getD_eq_getElem?_getD]
+  obtain ⟨_, klen, hconn1, c1, b1, l1, r1, n1⟩ := hs1
+  have klen' : s1.conns.length = s.conns.length + 1 := klen
+  have hlt1 : s.conns.length < s1.conns.length := by omega
+  have hconn1 : s1.conn s.conns.length = {} := hconn1
+  have c1 : s1.cfg = s.cfg := c1
+  have b1 : s1.bgpId = s.bgpId := b1
+  have l1 : s1.localCaps = s.localCaps := l1
+  have r1 : s1.remote = s.remote := r1
+  have n1 : s1.now = s.now := n1
   have e2 : step U ⟨s1, rb⟩ (.connOk s.conns.length) = ⟨(s1.withOuts []).connOk s.conns.length, rb⟩ := rfl
   have hw2 : ((((((s1.withOuts []).setPhase s.conns.length .connected).withProto (some s.conns.length)).setSt .connect).withEstab
       (some s.conns.length)).withBgpId (some ((s1.withOuts []).bgpId.getD (s1.withOuts []).cfg.localId))).openWire = some w := by
